@@ -289,6 +289,41 @@ Proof.
   intros H. unfold lzma2_read. destruct (Z.leb_spec buflen 0); [lia|]. reflexivity.
 Qed.
 
+(* ---------------------------------------------------------------------------------------------
+   non-vacuity: the stream of Lzma2ExamplesProofs.v (LZMA chunk, stored chunk, restart, LZMA chunk)
+   satisfies the hypotheses; every one of its cut points evaluated, two read histories *)
+From LzVerif Require Import Codec.Lzma2ExamplesProofs.
+
+Fixpoint is_prefix2 (a b : list Z) : bool :=
+  match a, b with
+  | [], _ => true
+  | x :: a', y :: b' => (x =? y) && is_prefix2 a' b'
+  | _ :: _, [] => false
+  end.
+
+Definition l2_cut (sizes : list Z) (k : nat) : bool :=
+  match lzma2_new (firstn k ex_stream) 4096 None with
+  | Ok s0 => match lzma2_read_all 40 s0 sizes sizes [] with
+             | Ok (out, e, _) => (e =? E_UNEXPECTED_EOF) && is_prefix2 out ex_data
+             | _ => false
+             end
+  | _ => false
+  end.
+
+Example lzma2_truncated_all_cuts :
+  length ex_stream = 33%nat /\ forallb (l2_cut [3; 1]) (seq 0 (length ex_stream)) = true /\ forallb (l2_cut [4096]) (seq 0 (length ex_stream)) = true.
+Proof. vm_compute. repeat split; reflexivity. Qed.
+
+Example lzma2_truncated_instance : forall sizes k, Forall (fun z => 0 < z) sizes -> (k < 33)%nat ->
+  exists s0, lzma2_new (firstn k ex_stream) 4096 None = Ok s0 /\
+    forall fuel, (12 <= fuel)%nat ->
+    exists out st, lzma2_read_all fuel s0 sizes sizes [] = Ok (out, E_UNEXPECTED_EOF, st) /\ exists rest, ex_data = out ++ rest.
+Proof.
+  intros sizes k Hs Hk. destruct lzma2_roundtrip_hyps as (Hb & Hne & Hw).
+  exact (lzma2_truncated 3 0 2 4096 ex_data ex_evs ex_stream sizes k ltac:(lia) ltac:(lia) ltac:(lia)
+           ltac:(lia) ltac:(lia) Hb Hne Hw Hs Hk).
+Qed.
+
 Print Assumptions lzma2_read_all_tr.
 Print Assumptions lzma2_truncated.
 Print Assumptions lzma2_truncated_preset.
